@@ -66,7 +66,9 @@ try:
         meta["detected_by"] = sorted(c for c, d in det.items() if d["exit"] != 0)
         meta["detected_with_concrete_input"] = sorted(c for c, d in det.items() if any(k.get("concrete_input") for k in d["reports"]))
         json.dump(meta, open(os.path.join(sd, "meta.json"), "w"), indent=1)
-        json.dump(results, open(rp, "w"), indent=1)
+        merged = json.load(open(rp)) if os.path.exists(rp) else {}
+        merged[s] = results[s]
+        json.dump(merged, open(rp, "w"), indent=1)
 finally:
     sh("git -C /repo worktree remove --force %s" % wt)
     shutil.rmtree(copy, ignore_errors=True)
